@@ -1126,6 +1126,7 @@ func (s *c06site) outcome() ssa.Value {
 
 func checkC06(c *Check) {
 	c06Extra(c)
+	c06GracefulClose(c)
 	p := c.P
 	var srvFns []*ssa.Function
 	for _, fn := range p.RepoFns {
